@@ -124,6 +124,8 @@ pub fn run(tier: Tier) -> Report {
             }
         }
     }
+    // all pairs of the boundary lattice of dimensions under the pixel cap
+    sizes.extend(size_lattice(if tier.thorough() { 1 << 20 } else { 1 << 16 }));
     for &(w, h) in &sizes {
         for hdr in hdr_kinds(w, h, 5, false, 1) {
             pics.push(coded_intra(hdr));
